@@ -29,3 +29,17 @@ build_mapsim() {
   (cd "$V/sim" && go build -modfile="$B/harness.mod" -tags mapsim -overlay "$out/src/overlay.json" -o "$out/vcheck" ./cmd/vcheck) || infra "mapsim build of vcheck failed"
   (cd "$REPO" && go build -overlay "$out/src/overlay.json" -o "$out/pp" ./cmd/pp) || infra "mapsim build of pp failed"
 }
+# build_clisim <out>: test binary of $REPO/internal with the simulator's driver overlaid
+build_clisim() {
+  local out="$1"
+  mkdir -p "$(dirname "$out")"
+  local d="$B/clisim.$$"
+  mkdir -p "$d"
+  { cat "$REPO/go.mod"; echo; echo "require verifsim v0.0.0"; echo "replace verifsim => $V/sim"; } > "$d/go.mod"
+  cp "$REPO/go.sum" "$d/go.sum"
+  cat > "$d/overlay.json" <<EOF
+{"Replace": {"$REPO/internal/verif_clisim_test.go": "$V/sim/clisim/verif_clisim_test.go.txt"}}
+EOF
+  (cd "$REPO" && go test -c -vet=off -modfile="$d/go.mod" -overlay "$d/overlay.json" -o "$out" ./internal) || { rm -rf "$d"; infra "build of the clisim driver failed"; }
+  rm -rf "$d"
+}
